@@ -721,7 +721,7 @@ def check(pid, tier, seed):
                     if l.split(" ", 1)[0] == str(m.get("idx")):
                         body["history_line"] = l
                 for ms in cr["mon_samples"]:
-                    if ms["mon"]["idx"] == m.get("idx"):
+                    if (ms.get("mon") or {}).get("idx") == m.get("idx") and ms.get("history") is not None:
                         body["history"] = ms["history"]
         # shrink the failing history (the monitor must still fire)
         hbin = hbins.get(m.get("component"))
@@ -804,9 +804,9 @@ def check(pid, tier, seed):
             body["component"] = comp
             body["monitor"] = hits[0]
             for ms in rep["mon_samples"]:
-                if ms["mon"]["idx"] == hits[0]["idx"] and ms["mon"]["prop"] == pid:
-                    body["history"] = ms["history"]
-                    body["history_line"] = ms["line"]
+                if (ms.get("mon") or {}).get("idx") == hits[0]["idx"] and (ms.get("mon") or {}).get("prop") == pid:
+                    body["history"] = ms.get("history")
+                    body["history_line"] = ms.get("line")
             path = write_replay(pid, seed, k, body)
             vio_lines.append("VIOLATION property=%s replay=%s" % (pid, path))
         else:
@@ -914,7 +914,18 @@ def main(argv):
     if tier not in ("quick", "thorough"):
         tier = "quick"
     seed = int(os.environ.get("VERIF_SEED", "1") or 1)
-    return check(pid, tier, seed)
+    try:
+        return check(pid, tier, seed)
+    except Exception:
+        # the machinery itself failed: the property is not shown to hold by this run, and that is said in the agreed form
+        import traceback
+        tb = traceback.format_exc()
+        path = write_replay(pid, seed, 99, {"property": pid, "kind": "no-failing-input-found", "seed": seed, "tier": tier,
+                                            "no_longer_checks": ["the check itself stopped with an internal error"],
+                                            "internal_error": tb})
+        print(tb, file=sys.stderr)
+        print("VIOLATION property=%s replay=%s no-failing-input-found" % (pid, path))
+        return 1
 
 
 if __name__ == "__main__":
